@@ -16,7 +16,7 @@ pub fn property() -> Property {
     Property {
         id: "C18",
         level: "exploration",
-        rule: "Bounded-exhaustive matrix: every charset exported by attohttpc::charsets (40) x its labels (canonical name + WHATWG aliases; plus the 6 labels of the WHATWG `replacement` decoder) in lower/upper/mixed case x media type {4 common ones, 3 of 53..71 characters} x Content-Type form {`t/s; charset=l`, `t/s;charset=l`, absent, unknown label, no parameter} x default-charset setting {unset, session, request, session overridden by request, session reset to None by the request} x API {text, text_with(other), text_utf8, text_reader with caller buffers 1,2,3,4,5,16,8192; a third of the reads through the reader half of Response::split()} x body kind {valid text in that encoding, random bytes, truncated multi-byte tail, lone surrogates / ISO-2022-JP escape garbage}; plus EVERY single cut offset and the bytewise script of 14 fixed multi-byte bodies (exhaustive; splits every multi-byte sequence at every inner offset) and seeded random cases incl. BOM-prefixed bodies. Oracle: one-shot encoding_rs decode_without_bom_handling with the charset the statement selects; for BOM-prefixed bodies only 'streaming/segmented == unsegmented through the same API'; no API may return Err. Non-trivial: body non-empty; distinct = hash(head, body, segmentation, API, defaults).",
+        rule: "Bounded-exhaustive matrix: every charset exported by attohttpc::charsets (40) x its labels (canonical name + WHATWG aliases; plus the 6 labels of the WHATWG `replacement` decoder) in lower/upper/mixed case x media type {4 common ones, 3 of 53..71 characters} x Content-Type form {`t/s; charset=l`, `t/s;charset=l`, absent, unknown label, no parameter} x default-charset setting {unset, session, request, session overridden by request, session reset to None by the request} x API {text, text_with(other), text_utf8, text_reader with caller buffers 1,2,3,4,5,16,8192; a third of the reads through the reader half of Response::split()} x body kind {valid text in that encoding, random bytes, truncated multi-byte tail, lone surrogates / ISO-2022-JP escape garbage}; plus EVERY single cut offset and the bytewise script of 14 fixed multi-byte bodies (exhaustive; splits every multi-byte sequence at every inner offset) and seeded random cases incl. BOM-prefixed bodies. 'reader-plans': EVERY cycle of three caller buffer sizes in 1..=6 on text_reader() over six bodies whose last character is cut short or that mix characters of every UTF-8 length. Oracle: one-shot encoding_rs decode_without_bom_handling with the charset the statement selects; for BOM-prefixed bodies only 'streaming/segmented == unsegmented through the same API'; no API may return Err. Non-trivial: body non-empty; distinct = hash(head, body, segmentation, API, defaults).",
         assumptions: &["quoted or second-position charset parameters are not generated", "encoding_rs is the decoding oracle (the statement defines decoding as lossy WHATWG decoding)"],
         min_nontrivial: |t| t.pick(5_000, 100_000),
         gens,
